@@ -42,10 +42,45 @@ func CheckRootSchema(rootSchema *ischema.ISchema) {
 	for name := range rootSchema.TypesList() {
 		names = append(names, name)
 	}
-	sort.Strings(names)
+	sort.Slice(names, func(i, j int) bool {
+		return typeCheckedBefore(names[i], names[j], rootSchema.TypesList())
+	})
 	for _, name := range names {
 		c.checkType(name, rootSchema.TypesList()[name], rootSchema.TypesList())
 	}
+}
+
+// typeCheckedBefore orders the types for checking: the unnamed types (alternatives
+// of "or" rules and of type choices) first, then the named ones in name order. The
+// name of an unnamed type is a heap address, which says nothing about where the
+// type was written: they go in the order of their files and, within a file, in the
+// order they were found in it.
+func typeCheckedBefore(a, b string, types map[string]ischema.Type) bool {
+	ua, ub := isUnnamedTypeName(a), isUnnamedTypeName(b)
+	if ua != ub {
+		return ua
+	}
+	if ua {
+		ta, tb := types[a], types[b]
+		if fa, fb := typeFileName(ta), typeFileName(tb); fa != fb {
+			return fa < fb
+		}
+		if ta.Seq != tb.Seq {
+			return ta.Seq < tb.Seq
+		}
+	}
+	return a < b
+}
+
+func isUnnamedTypeName(name string) bool {
+	return len(name) > 0 && name[0] == '#'
+}
+
+func typeFileName(t ischema.Type) string {
+	if t.RootFile == nil {
+		return ""
+	}
+	return t.RootFile.Name()
 }
 
 func (c *checkSchema) checkType(name string, typ ischema.Type, ss map[string]ischema.Type) {
@@ -59,7 +94,9 @@ func (c *checkSchema) checkType(name string, typ ischema.Type, ss map[string]isc
 		if jErr, ok := r.(kit.JSchemaError); ok {
 			jErr.SetFile(typ.RootFile)
 			jErr.SetIndex(bytes.Index(jErr.Index()) + typ.Begin)
-			jErr.SetIncorrectUserType(name)
+			if !isUnnamedTypeName(name) {
+				jErr.SetIncorrectUserType(name)
+			}
 			panic(jErr)
 		}
 
